@@ -7,6 +7,7 @@ import RisorModel.C04.SeqCertOracle
 import RisorModel.C04.MultiVarOracle
 import RisorModel.C04.ObsOracle
 import RisorModel.C04.LitOracle
+import RisorModel.C04.Host
 /-! Line-protocol front end of the C04 model.
   `stack <main|fn> <instruction text>` → `accept <max height> <n reachable>` | `reject <offset: reason>` | `error <decode problem>`
   `cert <main|fn> <instruction text>` → the accepted certificate itself (heights per slot)
@@ -18,7 +19,9 @@ import RisorModel.C04.LitOracle
   `tmpl …`, `trace …` → see ObsOracle.lean (template strings with empty interpolations: compileString's code against the real
       window; observed runs of one frame activation: the real heights against the model machine, the Spec `neutral`)
   `lit …` → see LitOracle.lean (list literals of every length and membership tests: compileList / compileIn / compileNotIn
-      against the real window, what the real instructions leave behind) -/
+      against the real window, what the real instructions leave behind)
+  `host <impl|skipreset|keepresult> <history>` → see Host.lean (histories of host invocations Run / RunCode / Call on one VM:
+      sp/fp after every invocation for the entry-point machine and for the Spec) -/
 namespace Risor.C04
 
 def handle : List String → String
@@ -55,6 +58,7 @@ def handle : List String → String
   | "tmpl" :: rest => Obs.handleTmpl rest
   | "trace" :: rest => Obs.handleTrace rest
   | "lit" :: rest => Lit.handleLit rest
+  | "host" :: rest => Host.handleHost rest
   | _ => "error\tunknown-request"
 
 end Risor.C04
